@@ -100,6 +100,22 @@ def job_estimate(j):
         return res
     res['range'] = rng_of(est)
     res['vals'] = eval_props(est, j['Ts'], j['props'])
+    # a second estimate object of the same mapping, asked first for the values relative to the elements and for array
+    # temperatures, then for the plain values: what an estimate answers must not depend on what it was asked before
+    if j.get('predecomp') and not j.get('no_again'):
+        try:
+            with warnings.catch_warnings(record=True):
+                warnings.simplefilter('always')
+                est2 = lib.Estimate(mapping, 'thermochem')
+                for T in j['Ts']:
+                    for fn in (est2.get_SoR, est2.get_GoRT):
+                        try:
+                            fn(T, S_elements=True)
+                        except Exception:
+                            pass
+                res['vals_after_elements'] = eval_props(est2, j['Ts'], j['props'])
+        except Exception as e:
+            res['vals_after_elements'] = {'exc': exc_name(e)}
     parts = []
     for k in mapping:
         corr = lib[k]['thermochem']
